@@ -37,94 +37,75 @@ def r_C05cde(root):
                 out.append(Finding("C05", "C05.c", M, "get_children.follow", ast.unparse(g), "the descent into a contained child is guarded by the child's truth value: a child object that is falsy (user class defining __len__ or __bool__) is skipped together with its whole subtree", witness="user class Block with __len__ returning 0 held in a single-valued containment attribute"))
         # single-valued children must be None-tested (getattr of an optional containment attribute may be None)
         ob("C05", "C05.c", M, "get_children.follow", ast.unparse(c), okc)
-    # ---- C05.d
-    gp = find_i(root, M, "get_parent_of_type"); fig = sem.info(gp); cfg = fig.cfg
-    loop = next((n for n in gp.body if isinstance(n, (ast.While, ast.For))), None)
-    if loop is None: raise AnalysisError("get_parent_of_type: loop not found")
-    pname = gp.args.args[1].arg
-    rets = [n for n in cfg.nodes if n.kind == "return" and n.ast.value is not None and not (isinstance(n.ast.value, ast.Constant) and n.ast.value.value is None)]
-    # the cursor: the variable that is returned on success (the parameter itself, or a local initialised from it)
-    cur = next((n.ast.value.id for n in rets if isinstance(n.ast.value, ast.Name)), pname)
-    def _assigns(n): return n.kind == "stmt" and isinstance(n.ast, ast.Assign) and any(isinstance(x, ast.Name) and x.id == cur for x in n.ast.targets)
-    climbs = [n for n in cfg.nodes if _assigns(n) and _u(n.ast.value) in (cur + ".parent", "getattr(%s,'parent',None)" % cur, "getattr(%s,'parent')" % cur)]
-    inits = [n for n in cfg.nodes if _assigns(n) and cur != pname and _u(n.ast.value) == pname]
-    if not climbs or not rets: raise AnalysisError("get_parent_of_type: climb/return not found")
-    inst += 1
-    bad = None
-    for r in rets:
-        p = cfg.paths_avoiding(cfg.entry, r, lambda n: n in climbs)
-        if p is not None: bad = r
-    ob("C05", "C05.d", M, "get_parent_of_type", "climb precedes every success return", bad is None)
-    if bad is not None: out.append(Finding("C05", "C05.d", M, "get_parent_of_type", ast.unparse(bad.ast), "the start object itself can be returned: the type test is reachable before the first step to .parent", witness="Package inside Package, get_parent_of_type('Package', inner)"))
-    other = [n for n in cfg.nodes if _assigns(n) and n not in climbs and n not in inits]
-    inst += 1
-    ob("C05", "C05.d", M, "get_parent_of_type", "only .parent is climbed", not other)
-    for n in other: out.append(Finding("C05", "C05.d", M, "get_parent_of_type", ast.unparse(n.ast), "the search moves along something else than the parent link"))
-    # ---- C05.e  the name a class argument is converted to is the name the selector compares objects by
-    for q in ("get_parent_of_type", "get_children_of_type"):
-        fn = find_i(root, M, q); tn = fn.args.args[0].arg; inst += 1
-        def proj_obj(e):
-            u = _u(e)
-            if u.endswith(".__class__.__name__") or (u.startswith("type(") and u.endswith(").__name__")): return "__name__"
-            if u.endswith("._tx_fqn") or u.endswith(".__class__._tx_fqn"): return "_tx_fqn"
-            return None
-        # comparisons of an object's class name with the type key (a name: the parameter or a local derived from it)
-        cmps = []
-        for n in ast.walk(fn):
-            if isinstance(n, ast.Compare) and len(n.ops) == 1 and isinstance(n.ops[0], (ast.Eq, ast.NotEq)):
-                l, r = n.left, n.comparators[0]
-                for a, b in ((l, r), (r, l)):
-                    if isinstance(b, ast.Name) and not isinstance(a, ast.Name): cmps.append((n, a, b.id))
-        cmps = [(n, a, k) for n, a, k in cmps if k == tn or any(isinstance(d, ast.Assign) and any(isinstance(x, ast.Name) and x.id == k for x in d.targets) and tn in {y.id for y in ast.walk(d.value) if isinstance(y, ast.Name)} for d in ast.walk(fn))]
-        if not cmps: raise AnalysisError("%s: type comparison not found" % q)
-        key = cmps[0][2]
-        sides = [proj_obj(a) or ("?" + _u(a)) for _n, a, _k in cmps]
-        # how a class argument becomes the key: assignments to the key, the non-identity branches of conditional expressions
-        projs = []
-        for d in own_nodes(fn):
-            if isinstance(d, ast.Assign) and any(isinstance(x, ast.Name) and x.id == key for x in d.targets):
-                vals = [d.value.body, d.value.orelse] if isinstance(d.value, ast.IfExp) else [d.value]
-                for v in vals:
-                    if isinstance(v, ast.Name) and v.id == tn: continue
-                    u = _u(v)
-                    projs.append((d, "__name__" if u == tn + ".__name__" else ("_tx_fqn" if u.endswith("._tx_fqn") and "getattr" not in u else "?" + u)))
-        okc = True
-        for d, pr in projs:
-            if any(s_ != pr for s_ in sides):
-                okc = False
-                out.append(Finding("C05", "C05.e", M, q, ast.unparse(d), "a class argument is normalised to %s but objects are compared by %s: for classes whose two names differ (grammar loaded from a file / imported grammar) nothing is found" % (pr.lstrip("?"), sorted(set(sides))[0].lstrip("?")), witness="grammar loaded from a file: get_children_of_type(mm['Rule'], model)"))
-        if not projs:
-            okc = False; out.append(Finding("C05", "C05.e", M, q, tn, "a class passed as type argument is never converted to the name the selector compares"))
-        ob("C05", "C05.e", M, q, "type argument normalisation vs selector projection", okc)
-    return inst, out
-def r_C07c(root):
-    out = []; inst = 0
-    t = load(root, P); fn = find(t, "PlainName.__call__")
-    sel = next((c for c in calls(fn) if callee_name(c) == "get_children" and c.args and isinstance(c.args[0], ast.Lambda)), None)
-    if sel is None: raise AnalysisError("PlainName: selector lambda not found")
-    lam = sel.args[0]; x = lam.args.args[0].arg
-    conj = lam.body.values if isinstance(lam.body, ast.BoolOp) and isinstance(lam.body.op, ast.And) else [lam.body]
-    kinds = []
-    for c in conj:
-        u = _u(c); inst += 1
-        if u in ("hasattr(%s,'name')" % x,): k = "exists"
-        elif isinstance(c, ast.Compare) and len(c.ops) == 1 and isinstance(c.ops[0], ast.Eq) and "obj_ref.obj_name" in u and ("%s.name" % x in u or "getattr(%s,'name'" % x in u): k = "name-eq"
-        elif u.startswith("textx_isinstance(%s,obj_ref.cls" % x): k = "conforms"
-        elif isinstance(c, ast.Compare) and isinstance(c.ops[0], (ast.Is, ast.IsNot)) and "name" in u: k = "exists"
-        else: k = None
-        ob("C07", "C07.c", P, "PlainName.__call__", ast.unparse(c), k is not None)
-        if k is None:
-            out.append(Finding("C07", "C07.c", P, "PlainName.__call__", ast.unparse(c), "the selector has a conjunct that is not one of existence test / name equality / type conformance; a truth-value test of the name hides objects whose name is 0 or empty", witness="name=INT, object named 0, reference [Slot|INT] to 0"))
-        kinds.append(k)
-    inst += 1
-    if "name-eq" not in kinds or "conforms" not in kinds:
-        out.append(Finding("C07", "C07.c", P, "PlainName.__call__", ast.unparse(lam.body)[:120], "selector lacks %s" % ("name equality" if "name-eq" not in kinds else "type conformance")))
-    # depth-first link-rule search: found objects are returned by None-test
-    inner = find(t, "PlainName.__call__._inner_resolve_link_rule_ref")
-    for e in truth_uses(inner, lambda e: isinstance(e, ast.Name) and e.id == "result"):
+    # ---- C05.d / C05.e by evaluation (sa/pyeval.py: the functions are interpreted over sample objects; nothing of textX runs,
+    #      helpers -- also generator helpers -- are interpreted with them, whatever the loop looks like)
+    from sa import pyeval as _pe
+    def mkcls(name, fqn): return {".__name__": name, "._tx_fqn": fqn, ".kind": "class"}
+    cA, cB, cC = mkcls("A", "ns.A"), mkcls("B", "lib.B"), mkcls("C", "C")
+    def mkobj(cls, parent=None, **kw):
+        o = {".__class__": cls, ".kind": "obj"}
+        if parent is not None: o[".parent"] = parent
+        for k, v in kw.items(): o["." + k] = v
+        return o
+    root_ = mkobj(cC); b2 = mkobj(cB, root_); a1 = mkobj(cA, b2); b1 = mkobj(cB, a1); a0 = mkobj(cA, b1)          # a0 in b1 in a1 in b2 in root
+    b_other = mkobj(cB, root_, other=a0)                                                                                # reaches a0 through a non-parent link
+    fns = helper_functions(root, M, "get_parent_of_type")
+    def run_gp(typ, obj):
+        gp = find(t, "get_parent_of_type"); ps = [a_.arg for a_ in gp.args.args]
+        env = {"__functions__": fns, ps[0]: typ, ps[1]: obj, "T": None, "Any": None}
+        try: return ("ret", _pe.run_block(gp.body, env))
+        except _pe.Raised as r_: return ("raise", r_.cls)
+        except _pe.Unsupported as u_: raise AnalysisError("get_parent_of_type: outside the evaluated subset: %s" % u_)
+    cases = [("the start object is not its own parent", "A", a0, a1), ("nearest ancestor of the type", "B", a0, b1), ("second nearest when the start is of the type", "B", b1, b2),
+             ("no ancestor of the type", "A", a1, None), ("root has no parent", "C", root_, None), ("only the parent link is climbed", "A", b_other, None)]
+    for what, typ, start, want in cases:
         inst += 1
-        ob("C07", "C07.c", P, "_inner_resolve_link_rule_ref", ast.unparse(e), False)
-        out.append(Finding("C07", "C07.c", P, "_inner_resolve_link_rule_ref", "if %s: return %s" % (ast.unparse(e), ast.unparse(e)), "an object found for an inheriting class is returned only if it is truthy: a matching object that is falsy (user class defining __len__/__bool__) is skipped and the reference fails with 'Unknown object'", witness="abstract rule + user class with __len__ == 0"))
+        k, v = run_gp(typ, start); okc = k == "ret" and v is want
+        ob("C05", "C05.d", M, "get_parent_of_type", what, okc)
+        if not okc:
+            out.append(Finding("C05", "C05.d", M, "get_parent_of_type", what, "get_parent_of_type(%r, <%s object>) on the sample chain A in B in A in B in C gives %s, documented %s" % (typ, start[".__class__"][".__name__"], "the start object itself" if v is start else ("an exception %s" % v if k == "raise" else ("None" if v is None else "another object")), "None" if want is None else "the nearest proper ancestor of that type"), witness="Package inside Package: get_parent_of_type('Package', inner)"))
+    # C05.e  a class argument selects exactly the objects whose class has that (simple) name -- also when the class's qualified name differs
+    for what, typ, start, want in (("class argument (qualified name differs from the simple name)", cB, a0, b1), ("class argument, no such ancestor", cA, a1, None)):
+        inst += 1
+        k, v = run_gp(typ, start); okc = k == "ret" and v is want
+        ob("C05", "C05.e", M, "get_parent_of_type", what, okc)
+        if not okc: out.append(Finding("C05", "C05.e", M, "get_parent_of_type", what, "a class passed as type argument does not find the ancestor of that class (%s): a class argument must be normalised to the name the objects are compared by" % ("exception " + str(v) if k == "raise" else "None" if v is None else "wrong object")))
+    gc = find(t, "get_children_of_type"); ps = [a_.arg for a_ in gc.args.args]
+    objs = [a0, b1, a1, b2, root_]
+    def fake_get_children(selector, root_obj, children_first=False, should_follow=None, **kw):
+        return [o for o in objs if selector(o)]
+    for what, typ, want in (("name argument", "B", [b1, b2]), ("class argument (qualified name differs from the simple name)", cB, [b1, b2]), ("class argument whose simple name equals its qualified name", cC, [root_])):
+        inst += 1
+        env = {"__functions__": {k_: v_ for k_, v_ in helper_functions(root, M, "get_children_of_type").items() if k_ != "get_children"}, "get_children": _pe.PyFn(fake_get_children), ps[0]: typ, ps[1]: root_}
+        for extra in ps[2:]: env[extra] = None
+        for a_, d_ in zip(gc.args.kwonlyargs, gc.args.kw_defaults): env[a_.arg] = None
+        try: k, v = "ret", _pe.run_block(gc.body, env)
+        except _pe.Raised as r_: k, v = "raise", r_.cls
+        except _pe.Unsupported as u_: raise AnalysisError("get_children_of_type: outside the evaluated subset: %s" % u_)
+        okc = k == "ret" and isinstance(v, list) and len(v) == len(want) and all(x is y for x, y in zip(v, want))
+        ob("C05", "C05.e", M, "get_children_of_type", what, okc)
+        if not okc: out.append(Finding("C05", "C05.e", M, "get_children_of_type", what, "the selector built for a %s selects %s of the sample objects instead of the %d of that class: the type argument is not normalised to the name the selector compares" % (what, len(v) if isinstance(v, list) else v, len(want))))
+    # ---- C05.f  get_model: root by identity, no user-defined equality consulted
+    eqlog = []
+    class SObj(dict):
+        __hash__ = None
+        def __eq__(s_, o): eqlog.append(1); return True
+        def __ne__(s_, o): eqlog.append(1); return False
+    def mk2(cls, parent=None):
+        o = SObj({".__class__": cls, ".kind": "obj"})
+        if parent is not None: o[".parent"] = parent
+        return o
+    r2 = mk2(cC); m2 = mk2(cB, r2); l2 = mk2(cA, m2)
+    gm = find(t, "get_model"); pm = gm.args.args[0].arg
+    for what, start in (("leaf", l2), ("inner object", m2), ("the model itself", r2)):
+        inst += 1; del eqlog[:]
+        try: k, v = "ret", _pe.run_block(gm.body, {"__functions__": helper_functions(root, M, "get_model"), pm: start, "T": None, "Any": None})
+        except _pe.Raised as r_: k, v = "raise", r_.cls
+        except _pe.Unsupported as u_: raise AnalysisError("get_model: outside the evaluated subset: %s" % u_)
+        okc = k == "ret" and v is r2 and not eqlog
+        ob("C05", "C05.f", M, "get_model", "from the %s" % what, okc)
+        if not okc:
+            out.append(Finding("C05", "C05.f", M, "get_model", "from the %s" % what, ("get_model compares model objects with == / in: a user class that defines equality by value makes the walk stop early or skip objects" if eqlog else "get_model started at the %s of a three-level sample chain does not return the chain's root (%s)" % (what, "raises " + str(v) if k == "raise" else "returns another object")), witness="user class with __eq__ comparing names; get_model(inner)"))
     return inst, out
 def r_C12c(root):
     out = []; inst = 0
